@@ -1261,5 +1261,63 @@ def r11_regexpp_literals(a, tier):
     return regexpp_literals(a, tier, 'C02.R11')
 
 
+def r12_generated_rule_names(a, tier):
+    import keyword as _kw
+    rep = RuleReport(
+        'C02.R12',
+        'a generated parser knows its rules apart: the name a rule gets at run time in generated code - the method name the generator '
+        'writes (safe_name of the rule name), read by RuleInfo.new and passed through the @rule decorator (both interpreted) - is different '
+        'for different rules (x, x_, x__, _x, _x_, X, if, class ...): memo entries, left-recursion guards and semantic actions are found '
+        'by that name, so two rules that share it are one rule to the engine while the model keeps them apart',
+        floor=1,
+    )
+    wrapper_fn = a.p.functions.get('tatsu.contexts.decorator.rule.__rule_wrapper')
+    sn = a.p.functions.get('tatsu.util.strtools.safe_name')
+    if wrapper_fn is None or sn is None:
+        raise AnalysisError('C02.R12: the rule decorator / safe_name not found')
+    names = ['x', 'x_', 'x__', '_x', '_x_', 'X', 'xy', 'if', 'class', 'match', 'rule1']
+    run_names = {}
+    RI = 'tatsu.contexts.infos.RuleInfo'
+    new_fn, bind_fn = a.p.func(f'{RI}.new'), a.p.func(f'{RI}.bind')
+
+    def mk_ri(**kw):
+        st = Stub(RI, **kw)
+        st._attrs['_replace'] = Hook(lambda **ch: mk_ri(**{k: v for k, v in {**st._attrs, **ch}.items() if k != '_replace'}))
+        return st
+    for n in names:
+        holder: dict = {}
+        ri_hook = Hook(mk_ri, q=RI, new=Hook(lambda *x, **k: holder['it'].call_fn(new_fn, list(x), k)), bind=Hook(lambda *x, **k: holder['it'].call_fn(bind_fn, list(x), k)))
+        it = holder['it'] = ModelInterp(a, {'RuleInfo': ri_hook, 're': Hook(None, sub=Hook(re.sub)), 'keyword': Hook(None, iskeyword=Hook(_kw.iskeyword), issoftkeyword=Hook(_kw.issoftkeyword), kwlist=_kw.kwlist,
+                                                                                softkwlist=_kw.softkwlist),
+                             'functools': Hook(None, wraps=Hook(lambda f: (lambda g_: g_))),
+                             'getattr': Hook(lambda o, nm, *d: (o._attrs[nm] if isinstance(o, Stub) and nm in o._attrs else (d[0] if d else None)))})
+        try:
+            method = it.call_fn(sn, [n])
+            func = Stub('tatsu.contexts.infos.CommentInfo', **{'__name__': method})
+            wrapper = it.call_fn(wrapper_fn, [func])
+            ctx = Recorder('ctx')
+            it.as_callable(wrapper)('INSTANCE', ctx)
+        except Unsupported as e:
+            raise AnalysisError(f'C02.R12: cannot interpret the rule decorator for {n!r}: {e}') from e
+        ris = [t[1][0] for t in ctx.trace if t[0] == 'call' and t[1]]
+        rn = None
+        if len(ris) == 1:
+            ri = ris[0]
+            rn = ri._attrs.get('name') if isinstance(ri, Stub) else getattr(ri, 'name', None)
+        run_names[n] = (method, rn)
+        rep.add({'rule': n, 'method': method, 'run_time_name': rn})
+        if rn is None:
+            raise AnalysisError(f'C02.R12: the decorated method of rule {n!r} did not hand one RuleInfo to ctx.call (got {ris!r})')
+    by_name: dict = {}
+    for n, (method, rn) in run_names.items():
+        by_name.setdefault(rn, []).append(n)
+    for rn, ns in sorted(by_name.items()):
+        methods_ = {run_names[n][0] for n in ns}
+        if len(ns) > 1 and len(methods_) > 1:
+            rep.fail(wrapper_fn.qualname, f'rule-name-collision:{rn}', f'the rules {ns} (methods {sorted(methods_)}) all run under the name {rn!r} in a generated parser: '
+                     f'they share memo entries, left-recursion guards and the semantic action, which the model keeps apart', wrapper_fn.loc)
+    return rep
+
+
 RULES = [r1_exhaustive, r2_primitives, r3_rule_transfer, r4_emission, r5_context_free_emission, r6_leaf_literals, r7_generated_configuration,
-         r8_operand_correspondence, r9_named_value, r10_generated_frames, r11_regexpp_literals]
+         r8_operand_correspondence, r9_named_value, r10_generated_frames, r11_regexpp_literals, r12_generated_rule_names]
